@@ -585,6 +585,11 @@ theorem weibull_stationary_is_global_maximiser_partial (ls : List ℝ) (w tau : 
     (hτ : llWeiDtau ls w tau = 0) (w' tau' : ℝ) (ht' : 0 < tau') : llWei ls w' tau' ≤ llWei ls w tau :=
   llWei_stationary_is_max ls w tau ht hw hτ w' tau' ht'
 
+/-- **…and it is the ONLY maximiser** (at least one sample above `mu`): every other admissible `(w', τ')` has a strictly smaller log-likelihood. -/
+theorem weibull_stationary_point_is_unique_maximiser_partial (ls : List ℝ) (hls : ls ≠ []) (w tau : ℝ) (ht : 0 < tau) (hw : llWeiDw ls w tau = 0)
+    (hτ : llWeiDtau ls w tau = 0) (w' tau' : ℝ) (ht' : 0 < tau') (hne : tau' ≠ tau ∨ w' ≠ w) : llWei ls w' tau' < llWei ls w tau :=
+  llWei_stationary_unique ls hls w tau ht hw hτ w' tau' ht' hne
+
 /-- the reparameterisation the code relies on: whatever the optimiser returns, `esl_wei_FitComplete` and `esl_sxp_FitComplete` hand back
     `mu` = the smallest observation, `lambda = exp(p[0]) > 0` and `tau = exp(p[1]) > 0` (ℝ) -/
 theorem weibull_sxp_fit_parameters_positive (xs : Array ℝ) (st : St) (ps : Array ℝ)
